@@ -20,6 +20,20 @@ OBS_CONFIGS = [('core_maths', 3), ('core_maths', 4), ('osc_maths', 3), ('base_e_
 OTHER = [('ext_maths', 3), ('osc_maths', 2), ('base10_maths', 3), ('keep_duplicates', 2), ('core_maths', 5), ('base_e_maths', 2), ('ext_maths', 1),
          ('osc_maths', 4)]
 FIT_OPTS = dict(Niter_params=[2], Nconv_params=[1])
+# a basis without binary operators has two functions per complexity, so complexity 10 is generated in seconds: the only
+# affordable way to have a compl_10 directory next to compl_2..compl_9 in one library
+RUN_BASIS = {'verif_tiny': [["x", "a"], ["inv"], []]}
+
+
+def basis_of(rn):
+    return RUN_BASIS.get(rn) or configs.SHIPPED[rn]
+
+
+def gen_op(rn, c, **kw):
+    d = dict(runname=rn, compl=c, **kw)
+    if rn in RUN_BASIS:
+        d['basis'] = RUN_BASIS[rn]
+    return ['gen', d]
 
 
 DIRECTED = []
@@ -51,6 +65,16 @@ for _cfg in (('core_maths', 3), ('core_maths', 4)):
     for _P in (1, 2):
         DIRECTED.append(dict(cfg=_cfg, kind='gen', P_obs=_P, P_first=_P, ops=['gen_faulty_inproc']))
         DIRECTED.append(dict(cfg=_cfg, kind='gen', P_obs=_P, P_first=_P, ops=['gen_faulty_inproc', 'gen_faulty_inproc']))
+for _n in (2, 3):
+    for _st in STAGES:
+        DIRECTED.append(dict(cfg=('verif_tiny', _n), kind='fit', stage=_st, P_obs=1, P_first=1, ipe=True, ops=['gen_high']))
+    DIRECTED.append(dict(cfg=('verif_tiny', _n), kind='fit', stage='test_all', P_obs=2, P_first=2, ipe=True, ops=['gen_high', 'pipe_same']))
+for _P in (1, 2):
+    DIRECTED.append(dict(cfg=('core_maths', 3), kind='fit', stage='combine', P_obs=_P, P_first=_P, ipe=False, data_corrupted=True, prior_changed=False, ops=['pipe_same']))
+    DIRECTED.append(dict(cfg=('core_maths', 1), kind='fit', stage='combine', P_obs=_P, P_first=1, ipe=False, data_corrupted=True, prior_changed=False, ops=['pipe_same', 'pipe_same']))
+for _cfg in (('core_maths', 3), ('core_maths', 4)):
+    DIRECTED.append(dict(cfg=_cfg, kind='gen', P_obs=1, gen_seed=0, ops=['gen_same_basis', 'pipe_same']))
+    DIRECTED.append(dict(cfg=_cfg, kind='gen', P_obs=2, gen_seed=0, ops=['gen_identical']))
 DIRECTED.append(dict(cfg=('core_maths', 3), kind='fit', stage='combine', P_obs=1, P_first=1, ipe=False, prior_changed=True, ops=['pipe_same']))
 DIRECTED.append(dict(cfg=('core_maths', 4), kind='fit', stage='combine', P_obs=2, P_first=2, ipe=False, prior_changed=True, ops=['pipe_same', 'pipe_other_like']))
 for _st in STAGES:
@@ -119,6 +143,7 @@ def draw_history(seed, i, quick, recipe=None):
         segments[0]['P'] = recipe['P_first']
     topt = dict(FIT_OPTS, ignore_previous_eqns=True) if ipe else dict(FIT_OPTS)
     other_basis = rng.choice([b for b in ('ext_maths', 'osc_maths', 'base_e_maths', 'core_maths') if b != runname])
+    tiny = runname in RUN_BASIS
     if recipe.get('like_oth') is not None:
         like_oth = [dict(cls='Gauss', data_file='data.txt', run_name='oth', data_dir='user2', fn_set=runname),
                     dict(cls='Poisson', data_file='counts.txt', run_name='obs', data_dir='user3', fn_set=runname),
@@ -135,7 +160,7 @@ def draw_history(seed, i, quick, recipe=None):
     def need_lib(rn, c, lower=False):
         for cc in (range(1, c + 1) if (ipe or lower) else [c]):
             if (rn, cc) not in libs:
-                cur().append(['gen', dict(runname=rn, compl=cc)])
+                cur().append(gen_op(rn, cc))
                 libs.add((rn, cc))
 
     def need_like(name, lk):
@@ -155,7 +180,7 @@ def draw_history(seed, i, quick, recipe=None):
         return dict(FIT_OPTS, ignore_previous_eqns=True) if on else dict(FIT_OPTS)
     nops = rng.randint(0, 5)
     CODES = {'gen_other': 0.1, 'gen_same_basis': 0.3, 'gen_identical': 0.5, 'pipe_same': 0.6, 'pipe_other_like': 0.7, 'pipe_other_basis': 0.8,
-             'pipe_synth': 0.88, 'restart': 0.9, 'gen_faulty': 0.95, 'gen_faulty_inproc': 0.985}
+             'pipe_synth': 0.88, 'gen_high': 0.883, 'restart': 0.9, 'gen_faulty': 0.95, 'gen_faulty_inproc': 0.985}
     plan_ops = recipe.get('ops')
     for oi in range(len(plan_ops) if plan_ops is not None else nops):
         c = rng.random()
@@ -168,18 +193,18 @@ def draw_history(seed, i, quick, recipe=None):
             c = CODES[code]
         if c < 0.2:
             rn, cc = rng.choice(OTHER)
-            if quick and configs.nfun(configs.SHIPPED[rn], cc) > 300:
+            if quick and configs.nfun(basis_of(rn), cc) > 300:
                 rn, cc = 'ext_maths', 3
-            cur().append(['gen', dict(runname=rn, compl=cc)])
+            cur().append(gen_op(rn, cc))
             libs.add((rn, cc))
             desc.append('gen %s/%d' % (rn, cc))
         elif c < 0.4:
-            cc = rng.choice([x for x in (1, 2, 3, 4, 5) if x != n and configs.nfun(configs.SHIPPED[runname], x) <= (300 if quick else 1000)])
-            cur().append(['gen', dict(runname=runname, compl=cc)])
+            cc = rng.choice([x for x in (1, 2, 3, 4, 5) if x != n and configs.nfun(basis_of(runname), x) <= (300 if quick else 1000)])
+            cur().append(gen_op(runname, cc))
             libs.add((runname, cc))
             desc.append('gen %s/%d (same basis)' % (runname, cc))
         elif c < 0.55:
-            cur().append(['gen', dict(runname=runname, compl=n)])
+            cur().append(gen_op(runname, n))
             libs.add((runname, n))
             desc.append('gen %s/%d (identical)' % (runname, n))
         elif c < 0.67:
@@ -200,6 +225,12 @@ def draw_history(seed, i, quick, recipe=None):
             need_like('Lbas', dict(like_obs, cls='Gauss', data_file='data.txt', data_dir='user', run_name='bas', fn_set=other_basis))
             cur().extend(pipeline('Lbas', n, opts=o))
             desc.append('pipeline other basis %s' % other_basis + (' (ipe)' if o.get('ignore_previous_eqns') else ''))
+        elif 0.882 <= c < 0.884:
+            # a complexity-10 library in the same basis directory (only affordable for the tiny basis)
+            if tiny:
+                cur().append(gen_op(runname, 10))
+                libs.add((runname, 10))
+                desc.append('gen %s/10 (same basis, two-digit complexity)' % runname)
         elif c < 0.89:
             # a complete pipeline on a hand-written complexity-11 library (raises the recursion limit, 5-column tables)
             # half of the time under the SAME run name as the observed likelihood: complexity-11 outputs and partial files
@@ -216,13 +247,13 @@ def draw_history(seed, i, quick, recipe=None):
         elif c >= 0.97:
             # an earlier generation IN THE SAME PROCESSES in which steps timed out (fault plan scoped to that one operation)
             tgt = rng.choice([(runname, n), (runname, n), (runname, max(3, n - 1)), (other_basis, 3)])
-            if configs.nfun(configs.SHIPPED[tgt[0]], tgt[1]) > (300 if quick else 1000):
+            if configs.nfun(basis_of(tgt[0]), tgt[1]) > (300 if quick else 1000):
                 tgt = (runname, 3)
             dens = rng.choice([0.1, 0.3, 0.7])
             Pseg = segments[-1]['P']
             pl = {str(r): {str(b): ['stmt', rng.randint(1, 14)] for b in range(1, 700) if rng.random() < dens} for r in range(Pseg)}
             segments[-1].setdefault('op_plans', {})[str(len(cur()))] = pl
-            cur().append(['gen', dict(runname=tgt[0], compl=tgt[1])])
+            cur().append(gen_op(tgt[0], tgt[1]))
             libs.add(tgt)
             desc.append('gen %s/%d with timeouts, same processes' % tgt)
         else:
@@ -234,7 +265,7 @@ def draw_history(seed, i, quick, recipe=None):
                 segments[-1]['P'] = 1
             dens = rng.choice([0.15, 0.4, 0.8])
             segments[-1]['plan'] = {'0': {str(b): ['stmt', rng.randint(1, 14)] for b in range(1, 700) if rng.random() < dens}}
-            cur().append(['gen', dict(runname=runname, compl=n)])
+            cur().append(gen_op(runname, n))
             libs.add((runname, n))
             desc.append('gen %s/%d with timeouts (identical call)' % (runname, n))
             segments.append(dict(P=rng.choice([1, 2]), program=[]))
@@ -250,9 +281,10 @@ def draw_history(seed, i, quick, recipe=None):
             segments[-1]['P'] = P_obs
     npseed = rs % 65521
     if kind == 'gen':
+        gseed = recipe.get('gen_seed', 0 if rng.random() < 0.2 else None)
         cur().append(['npseed', dict(seed=npseed)])
-        cur().append(['gen', dict(runname=runname, compl=n)])
-        observed = dict(kind='gen', runname=runname, compl=n, P=P_obs, npseed=npseed)
+        cur().append(gen_op(runname, n, **({'seed': gseed} if gseed is not None else {})))
+        observed = dict(kind='gen', runname=runname, compl=n, P=P_obs, npseed=npseed, gen_seed=gseed)
     else:
         stage = recipe.get('stage') or rng.choice(STAGES)
         o_pre = op_opts()
@@ -265,6 +297,13 @@ def draw_history(seed, i, quick, recipe=None):
         from .jobs import STAGE_INPUTS
         for f in STAGE_INPUTS[stage]:
             pairs.append([od + '/' + f % n, 'snap/in/' + f % n])
+        if stage == 'combine' and like_obs['cls'] == 'Gauss' and recipe.get('data_corrupted', rng.random() < 0.1):
+            # the data file of the run name now contains a NaN measurement: every description length becomes NaN and the
+            # final table is empty - next to whatever an earlier ranking under the same run name left behind
+            cur().append(['rewrite_data', dict(path=like_obs['data_dir'] + '/' + like_obs['data_file'])])
+            cur().append(['like', dict(like_obs, name='Lobs')])
+            cur().extend(pipeline('Lobs', n, upto=stage, opts=dict(FIT_OPTS)))
+            desc.append('data file corrupted (NaN) before the observed run')
         if stage == 'combine' and recipe.get('prior_changed', rng.random() < 0.15):
             # the function-prior file of the library is replaced (same length, other values) after earlier rankings used it
             cur().append(['rewrite_prior', dict(runname=runname, compl=n, mode=rng.choice(['reverse', 'shift']))])
@@ -292,7 +331,8 @@ def main(tier, seed, budget):
         # ---- fresh reference worlds for observed generations ----
         refs = {}
         jobs = [dict(fn=JOB_GEN, args=dict(runname=rn, compl=c, P=P, seed=0, policy={'kind': 'lowest'}, oracle=False,
-                                           pre=[['npseed', dict(seed=1)]]), tag=(rn, c, P)) for rn, c in OBS_CONFIGS for P in (1, 2)]
+                                           pre=[['npseed', dict(seed=1)]], gen_kw=({'seed': gs} if gs is not None else {})), tag=(rn, c, P, gs))
+                for rn, c in OBS_CONFIGS for P in (1, 2) for gs in (None, 0)]
         for job, out in pool.imap(jobs, timeout=900):
             stats['fresh_worlds'] += 1
             if out[0] != 'ok' or out[1].get('violation'):
@@ -304,7 +344,7 @@ def main(tier, seed, budget):
             a = draw_history(seed, i, quick)
             o = a['observed']
             if o['kind'] == 'gen':
-                a['ref_hashes'] = refs.get((o['runname'], o['compl'], o['P']))
+                a['ref_hashes'] = refs.get((o['runname'], o['compl'], o['P'], o.get('gen_seed')))
                 if a['ref_hashes'] is None:
                     return None
             return dict(fn=JOB, args=a, timeout=1500)
@@ -331,7 +371,7 @@ def main(tier, seed, budget):
                 a = draw_history(seed, 400000 + k, quick, recipe=rc)
                 o = a['observed']
                 if o['kind'] == 'gen':
-                    a['ref_hashes'] = refs.get((o['runname'], o['compl'], o['P']))
+                    a['ref_hashes'] = refs.get((o['runname'], o['compl'], o['P'], o.get('gen_seed')))
                     if a['ref_hashes'] is None:
                         continue
                 a['directed'] = k
